@@ -84,8 +84,10 @@ CloseBlock == /\ open > 0
               /\ gap' = gap \o <<"t", "l">> /\ open' = open - 1 /\ last' = "" /\ UNCHANGED inline
 \* comment bodies: strings over {x, s, single d} without "dd"
 Bodies == {<<>>, <<"x">>, <<"x", "s", "x">>, <<"d", "x">>, <<"x", "d", "x">>, <<"s", "x", "s">>}
+\* a comment that runs to the end of the line may end in a single hyphen ("-- sign is + or -"): the line break ends it
+LineBodies == Bodies \cup {<<"x", "s", "d">>, <<"d">>, <<"x", "d">>}
 Next == \/ \E c \in {"s", "n"} : Ws(c)
-        \/ \E b \in Bodies : LineComment(b) \/ InlineComment(b)
+        \/ (\E b \in LineBodies : LineComment(b)) \/ (\E b \in Bodies : InlineComment(b))
         \/ OpenBlock \/ (\E c \in {"x", "s", "n", "d", "l", "t"} : BlockChar(c)) \/ CloseBlock
 Spec == Init /\ [][Next]_vars
 
@@ -100,12 +102,13 @@ StopsAtToken == (open = 0) => Scan(Append(gap, "x"), 1, "out", 0) = "token"
 Forms == {"SP", "TAB", "LF", "CRLF", "NONE", "LINE", "LINE_NOSPACE", "INLINE", "INLINE_TIGHT", "BLOCK", "BLOCK_TIGHT", "NESTED",
           "BLOCK_QUOTES", "LINE_KEYWORDS", "BLOCK_NONASCII", "MIXED", "NESTED_SLASH", "BLOCK_STARS", "NESTED_STAR",
           \* comments whose text is what the generator writes into the doc comments of the items it invents
-          "LINE_ANON", "INLINE_INNER"}
+          "LINE_ANON", "INLINE_INNER", "LINE_HYPHEN_END"}
 AbstractOf(f) ==
     CASE f \in {"SP", "TAB"} -> <<"s">>
       [] f = "LF" -> <<"n">>
       [] f = "CRLF" -> <<"s", "n">>                        \* CR is white space
       [] f = "NONE" -> <<>>
+      [] f = "LINE_HYPHEN_END" -> <<"s", "d", "d", "s", "x", "s", "d", "n">>
       [] f = "INLINE_INNER" -> <<"d", "d", "s", "x", "s", "x", "s", "d", "d">>
       [] f \in {"LINE", "LINE_KEYWORDS", "LINE_ANON"} -> <<"s", "d", "d", "s", "x", "s", "x", "n">>
       [] f = "LINE_NOSPACE" -> <<"d", "d", "x", "n">>
